@@ -22,10 +22,15 @@ from ..Progress import Progress
 from .CollectionDict import CollectionDict
 
 
-def remove_duplicate_surfaces(surfs):
+def remove_duplicate_surfaces(surfs, keep=()):
     '''This function that detects duplicate surfaces from a surface dictionary,
     removes them and provides a dictionary where the IDs of the deleted
-    surfaces are associated with the ID of the surface that replaced them.'''
+    surfaces are associated with the ID of the surface that replaced them.
+
+    The surfaces whose IDs are in `keep` are neither removed nor used as a
+    replacement for another surface: they carry a boundary condition, which
+    the cells bounded by an identical surface without one must not inherit.
+    '''
     renumbering = {}
     new_surfs = CollectionDict()
     surf_to_id = {}
@@ -34,7 +39,10 @@ def remove_duplicate_surfaces(surfs):
                   len(surfs), max(surfs)) as progress:
         for i, (key, surf) in enumerate(sorted(surfs.items())):
             progress.update(i, key)
-            if surf in surf_to_id:
+            if key in keep:
+                new_surfs[key] = surf
+                renumbering[key] = key
+            elif surf in surf_to_id:
                 renumbering[key] = surf_to_id[surf]
             else:
                 new_surfs[key] = surf
